@@ -3,6 +3,7 @@ package verifh
 import (
 	"database/sql/driver"
 
+	"gorm.io/gorm"
 	"gorm.io/gorm/internal/verifrt"
 )
 
@@ -118,3 +119,109 @@ func H_DEV_M2M(shape int) {
 	verifrt.Observe("err2", res.Error)
 	verifrt.Observe("log2", s.Kinds())
 }
+
+func H_DEV_AssocMode(shape int) {
+	s := NewStore()
+	db := openReal(stubDialector{}, s, nil)
+	next := int64(10)
+	s.OnExec = func(text string, args []driver.Value) Result {
+		next += 10
+		return Result{LastID: next, Affected: 1}
+	}
+	s.OnQuery = func(text string, args []driver.Value) RowSet {
+		if hasPrefix(text, "SELECT count") {
+			return RowSet{Cols: []string{"count(*)"}, Rows: [][]driver.Value{{int64(1)}}}
+		}
+		return RowSet{}
+	}
+	full := func() []interface{} {
+		var r []interface{}
+		for _, e := range s.Log {
+			if e.Kind == "EXEC" || e.Kind == "QUERY" {
+				r = append(r, e.Kind+" "+e.Text, e.Args)
+			}
+		}
+		s.Log = nil
+		return r
+	}
+	switch shape {
+	case 0: // has many
+		o := Owner{ID: 1, Name: "o"}
+		a := func() *gorm.Association { return db.Model(&o).Association("Pets") }
+		verifrt.Observe("append-err", a().Append(&Pet{Name: "new"}, &Pet{ID: 7, Name: "old"}))
+		verifrt.Observe("append", full())
+		verifrt.Observe("owner", o)
+		verifrt.Observe("replace-err", a().Replace(&Pet{ID: 8, Name: "x"}))
+		verifrt.Observe("replace", full())
+		verifrt.Observe("delete-err", a().Delete(&Pet{ID: 8}))
+		verifrt.Observe("delete", full())
+		verifrt.Observe("clear-err", a().Clear())
+		verifrt.Observe("clear", full())
+		verifrt.Observe("count", a().Count())
+		var ps []Pet
+		a().Find(&ps)
+		verifrt.Observe("count+find", full())
+		verifrt.Observe("unscoped-delete-err", db.Model(&o).Association("Pets").Unscoped().Delete(&Pet{ID: 8}))
+		verifrt.Observe("unscoped-delete", full())
+	case 1: // many2many
+		sp := Speaker{ID: 1, Name: "s"}
+		a := func() *gorm.Association { return db.Model(&sp).Association("Langs") }
+		verifrt.Observe("append-err", a().Append(&Lang{Name: "new"}, &Lang{ID: 7, Name: "old"}))
+		verifrt.Observe("append", full())
+		verifrt.Observe("replace-err", a().Replace(&Lang{ID: 8, Name: "x"}))
+		verifrt.Observe("replace", full())
+		verifrt.Observe("delete-err", a().Delete(&Lang{ID: 8}))
+		verifrt.Observe("delete", full())
+		verifrt.Observe("clear-err", a().Clear())
+		verifrt.Observe("clear", full())
+		verifrt.Observe("count", a().Count())
+		var ls []Lang
+		a().Find(&ls)
+		verifrt.Observe("count+find", full())
+	case 2: // belongs to
+		o := Owner{ID: 1, Name: "o"}
+		a := func() *gorm.Association { return db.Model(&o).Association("Company") }
+		verifrt.Observe("append-err", a().Append(&Company{ID: 7, Name: "old"}))
+		verifrt.Observe("append", full())
+		verifrt.Observe("owner", o.CompanyID)
+		verifrt.Observe("replace-err", a().Replace(&Company{Name: "new"}))
+		verifrt.Observe("replace", full())
+		verifrt.Observe("delete-err", a().Delete(&Company{ID: 20}))
+		verifrt.Observe("delete", full())
+		verifrt.Observe("clear-err", a().Clear())
+		verifrt.Observe("clear", full())
+		verifrt.Observe("count", a().Count())
+		var c Company
+		a().Find(&c)
+		verifrt.Observe("count+find", full())
+	case 4: // belongs to, unscoped
+		two := uint(2)
+		o := Owner{ID: 1, Name: "o", CompanyID: &two, Company: &Company{ID: 2, Name: "e"}}
+		a := func() *gorm.Association { return db.Model(&o).Association("Company").Unscoped() }
+		verifrt.Observe("replace-err", a().Replace(&Company{ID: 3, Name: "x"}))
+		verifrt.Observe("replace", full())
+		verifrt.Observe("delete-err", a().Delete(&Company{ID: 3}))
+		verifrt.Observe("delete", full())
+		three := uint(3)
+		o.CompanyID = &three
+		verifrt.Observe("clear-err", a().Clear())
+		verifrt.Observe("clear", full())
+	case 3: // has one
+		o := Owner{ID: 1, Name: "o"}
+		a := func() *gorm.Association { return db.Model(&o).Association("Profile") }
+		verifrt.Observe("append-err", a().Append(&Profile{ID: 7, Bio: "old"}))
+		verifrt.Observe("append", full())
+		verifrt.Observe("replace-err", a().Replace(&Profile{Bio: "new"}))
+		verifrt.Observe("replace", full())
+		verifrt.Observe("delete-err", a().Delete(&Profile{ID: 20}))
+		verifrt.Observe("delete", full())
+		verifrt.Observe("clear-err", a().Clear())
+		verifrt.Observe("clear", full())
+		verifrt.Observe("count", a().Count())
+		var p Profile
+		a().Find(&p)
+		verifrt.Observe("count+find", full())
+	}
+}
+
+func N_DEV_AssocMode(tier int) int { return 5 }
